@@ -72,6 +72,12 @@ class _Canon(ast.NodeTransformer):
 
     def visit_Call(self, node: ast.Call):
         self.generic_visit(node)
+        # C9b: X.update(k=v, ...) with keyword arguments only  ->  X.update({"k": v, ...})  (dict.update accepts both spellings)
+        if isinstance(node.func, ast.Attribute) and node.func.attr == "update" and not node.args and node.keywords and all(k.arg is not None for k in node.keywords):
+            d = ast.Dict(keys=[ast.copy_location(ast.Constant(value=k.arg), k.value) for k in node.keywords], values=[k.value for k in node.keywords])
+            node.args = [ast.copy_location(d, node)]
+            node.keywords = []
+            return node
         # C9: dict(k=v, ...) with keyword arguments only  ->  {"k": v, ...}
         if isinstance(node.func, ast.Name) and node.func.id == "dict" and not node.args and node.keywords and all(k.arg is not None for k in node.keywords):
             d = ast.Dict(keys=[ast.copy_location(ast.Constant(value=k.arg), k.value) for k in node.keywords], values=[k.value for k in node.keywords])
@@ -101,6 +107,10 @@ class _Canon(ast.NodeTransformer):
     def visit_If(self, node: ast.If):
         self.generic_visit(node)
         node.test = self._test(node.test)
+        # C21: a constant test (what is left of a flag parameter after a helper was inlined: `if True: A else: B`) selects its branch
+        if isinstance(node.test, ast.Constant):
+            taken = node.body if node.test.value else node.orelse
+            return taken if taken else ast.copy_location(ast.Pass(), node)
         if node.orelse and isinstance(node.test, ast.UnaryOp) and isinstance(node.test.op, ast.Not):
             node.test = node.test.operand
             node.body, node.orelse = node.orelse, node.body
